@@ -45,6 +45,11 @@ type checkRunner struct {
 	checkedBodyPerCheck  map[module.CheckState]struct{}
 	checkedRcptsLock     sync.Mutex
 
+	// Recipients refused by a check, with the error they were refused with.
+	// Check states are not asked about a recipient twice, so the answer has
+	// to be kept for the case the client repeats the RCPT command.
+	rejectedRcpts map[string]error
+
 	resolver      dns.Resolver
 	doDMARC       bool
 	didDMARCFetch bool
@@ -62,6 +67,7 @@ func newCheckRunner(msgMeta *module.MsgMetadata, log log.Logger, r dns.Resolver)
 		msgMeta:              msgMeta,
 		checkedRcptsPerCheck: map[module.CheckState]map[string]struct{}{},
 		checkedBodyPerCheck:  map[module.CheckState]struct{}{},
+		rejectedRcpts:        map[string]error{},
 		log:                  log,
 		resolver:             r,
 		dmarcVerify:          dmarc.NewVerifier(r),
@@ -157,6 +163,7 @@ func (cr *checkRunner) checkStates(ctx context.Context, checks []module.Check, c
 					cr.log.Error("check rejected an already handled recipient", err, "rcpt", rcpt)
 					continue
 				}
+				cr.rejectedRcpts[rcpt] = err
 				closeStates()
 				return nil, err
 			}
@@ -262,6 +269,13 @@ func (cr *checkRunner) checkConnSender(ctx context.Context, checks []module.Chec
 }
 
 func (cr *checkRunner) checkRcpt(ctx context.Context, checks []module.Check, rcptTo string) error {
+	if err, ok := cr.rejectedRcpts[rcptTo]; ok {
+		// The client repeats a recipient that a check has refused for this
+		// message. The states that have seen it would be skipped below and
+		// the recipient would get through: repeat the answer instead.
+		return err
+	}
+
 	states, err := cr.checkStates(ctx, checks, rcptTo)
 	if err != nil {
 		return err
@@ -284,6 +298,9 @@ func (cr *checkRunner) checkRcpt(ctx context.Context, checks []module.Check, rcp
 	})
 
 	cr.checkedRcpts = append(cr.checkedRcpts, rcptTo)
+	if err != nil {
+		cr.rejectedRcpts[rcptTo] = err
+	}
 	return err
 }
 
